@@ -128,6 +128,16 @@ func buildMsg(kind string, v int) any {
 						Modulus: *new(big.Int).Neg(new(big.Int).Lsh(big.NewInt(0x7654321), 90)), PublicExponent: *big.NewInt(-65537)}},
 						Attribute: []kmip.Attribute{{AttributeName: "x-big", AttributeValue: neg}, {AttributeName: "x-big2", AttributeValue: big.NewInt(-1)}}}},
 					CryptographicAlgorithm: kmip.CryptographicAlgorithmRSA, CryptographicLength: 2048}}}}}}
+	case "RespGetCarved":
+		// byte strings carved out of one buffer, as an application that reads an identifier and a key from one record has them: the
+		// item's id is buf[5:10], the key material buf[0:5] - neighbours in memory, and the key is written after the id. Encoding reads
+		// its input: neither value is any different after the call
+		buf := []byte{0xC0, 0xC1, 0xC2, 0xC3, 0xC4, 0xD0, 0xD1, 0xD2, 0xD3, 0xD4, 0xE0, 0xE1, 0xE2, 0xE3, 0xE4, 0xE5, 0xF0, 0xF1, 0xF2, 0xF3, 0xF4, 0xF5, 0xF6, 0xF7}
+		key := buf[0:5]
+		return &kmip.ResponseMessage{Header: sh, BatchItem: []kmip.ResponseBatchItem{{Operation: kmip.OperationGet, UniqueBatchItemID: buf[5:10],
+			ResponsePayload: &payloads.GetResponsePayload{ObjectType: kmip.ObjectTypeSecretData, UniqueIdentifier: "id",
+				Object: &kmip.SecretData{SecretDataType: kmip.SecretDataTypePassword, KeyBlock: kmip.KeyBlock{KeyFormatType: kmip.KeyFormatTypeOpaque,
+					KeyValue: &kmip.KeyValue{Plain: &kmip.PlainKeyValue{KeyMaterial: kmip.KeyMaterial{Bytes: &key}}}}}}}}}
 	case "RespGetSecret":
 		// the same payload structure as RespGet carrying another concrete object type: plans are per structure, the value varies
 		return &kmip.ResponseMessage{Header: sh, BatchItem: []kmip.ResponseBatchItem{{Operation: kmip.OperationGet,
